@@ -87,7 +87,7 @@ def ensure_built() -> None:
 
 
 def tlc_cmd(module: str, cfg: str | None, workers: int, metadir: Path, extra: list[str], heap: str) -> list[str]:
-    cmd = ["java", "-XX:+UseSerialGC" if workers == 1 else "-XX:+UseParallelGC", f"-Xmx{heap}", "-Xss128m",
+    cmd = ["java", "-XX:+UseSerialGC" if workers == 1 else "-XX:+UseParallelGC", f"-Xmx{heap}", "-Xss128m", f"-Djava.io.tmpdir={metadir}",
            "-cp", TLA_CP, "tlc2.TLC", "-metadir", str(metadir), "-noGenerateSpecTE",
            "-workers", str(workers)]
     if cfg:
